@@ -253,7 +253,24 @@ type C15NotRec struct {
 	D *C15ExcludedBad
 }
 
+// two different struct types that print the same ("main.C15Acct"): a package-level one and a
+// function-local one that contains it.  Containing a namesake is not recursion.
+type C15Acct struct {
+	N int64 `json:"n"`
+}
+
+func c15Namesake() any {
+	type inner = C15Acct
+	type C15Acct struct {
+		Peer  inner   `json:"peer"`
+		Peers []inner `json:"peers"`
+		Name  string  `json:"name"`
+	}
+	return C15Acct{}
+}
+
 var c15Corner = []any{
+	c15Namesake(),
 	C15Tags{}, C15Dup{}, C15DupSame{}, C15Empty{}, C15Embed{}, C15Unexported{}, C15ExcludedBad{},
 	C15Twice{}, C15TwicePtr{}, C15TwiceDeep{}, C15OnceOnly{}, C15AnonTwice{},
 	C15Named1{}, C15NamedI8{}, C15NamedU8{}, C15NamedU{}, C15NamedArr{}, C15NamedArr2{}, C15NamedMapInt{},
